@@ -23,6 +23,8 @@ PAIRS = [
     (8, 0, "rerun", "rd"),
     (9, 1, "restore", "rd"), (10, 1, "restore", "rd"),
     # entries of the cluster syncer (conflict pre-check when applied live)
+    # rocksdb, log years before the node's clock: a forced full compaction at a random position vs none
+    (19, 20, "compaction", "rdc"),
     (17, 16, "syncer-replay", "rd"), (16, 18, "syncer-batching", "rd"),
     # local-deletion policy, the node-local expiry sweep run in the middle of the log:
     (12, 14, "localexpiry", "rd"),    # log years AFTER the node's clock: nothing is past expiry, nothing may change
@@ -56,20 +58,51 @@ def req_keys(reqs):
     return out
 
 
+# data type a write command works on, and the dump views that belong to each type
+def cmd_type(name):
+    if name in ("hmclear",) or (name.startswith("h") and name not in ()):
+        return "h"
+    if name in ("sadd", "srem", "spop", "sclear", "smclear", "sexpire", "spersist"):
+        return "s"
+    if name.startswith("z"):
+        return "z"
+    if name in ("lpush", "rpush", "lpop", "rpop", "lset", "ltrim", "lclear", "lmclear", "lexpire", "lpersist"):
+        return "l"
+    if name in ("setbitv2", "bitclear", "bexpire", "bpersist"):
+        return "b"
+    if name.startswith("json."):
+        return "j"
+    return "k"
+
+
+VIEW_TYPE = dict(get="k", getnil="k", ttl="k", pfc="k", hall="h", hlen="h", httl="h", lr="l", llen="l", lttl="l",
+                 sm="s", scard="s", sttl="s", zr="z", zcard="z", zttl="z", bitc="b", bttl="b", json="j")
+
+
 def untainted_view(L, o):
-    """replies and dump restricted to the keys that never got a TTL in this log (local-deletion policy:
-    a node may physically remove, on its own clock, exactly the keys that are past their expiry)."""
+    """replies and dump restricted to the (type, key) pairs that never got a TTL in this log (local-deletion
+    policy: a node may physically remove, on its own clock, exactly the values that are past their expiry;
+    a value of ANOTHER type under the same key name is not one of them)."""
     rk = req_keys(L["reqs"])
     tainted = set()
     for name, ks, args in rk:
         has_ex = name in TTL_CMDS or (name in ("set", "setifeq") and any(unh(x).lower() == b"ex" for x in args[3:]))
         if has_ex:
-            tainted.update(ks)
+            t = cmd_type(name)
+            tainted.update((t, k) for k in ks)
+            if t == "k":
+                tainted.update(("b", k) for k in ks)    # BITCOUNT falls back to the string value of the key
     reps = o["replies"].split(" ; ")
-    keep = [r for (name, ks, _), r in zip(rk, reps) if not (set(ks) & tainted)]
-    ents = [e for e in o["dump"].split(" || ") if e and not e.startswith("cnt(") and e.split("{")[0] not in tainted]
+    keep = [r for (name, ks, _), r in zip(rk, reps) if not any((cmd_type(name), k) in tainted for k in ks)]
+    ents = []
+    for e in o["dump"].split(" || "):
+        if not e or e.startswith("cnt("):
+            continue
+        key, body = e.split("{", 1)
+        toks = [t for t in body.rstrip("}").split(" | ") if (VIEW_TYPE.get(t.split("=", 1)[0], "k"), key) not in tainted]
+        if toks:
+            ents.append(key + "{" + " | ".join(toks) + "}")
     return " ; ".join(keep), " || ".join(ents)
-
 
 
 def unh(s):
@@ -171,6 +204,14 @@ def judge(logs, order, obs, pairs=None):
                 elif da != db:
                     fails.append(dict(log=lid, a=b, b=a, dim=dim, kind="dump", what="dumps differ on keys that never had a TTL"))
                 continue
+            if "c" in what and A["replies"] == B["replies"] and A["dump"] != B["dump"]:
+                # compaction dimension: user data first, the table key counters separately
+                strip = lambda d: " || ".join(e for e in d.split(" || ") if not e.startswith("cnt("))
+                if strip(A["dump"]) == strip(B["dump"]):
+                    fails.append(dict(log=lid, a=b, b=a, dim=dim, kind="counter",
+                                      what="only the table key counters differ: " +
+                                           " vs ".join(",".join(e for e in d.split(" || ") if e.startswith("cnt(")) for d in (B["dump"], A["dump"]))))
+                    continue
             if "r" in what and A["replies"] != B["replies"]:
                 i, x, y = first_diff(B["replies"], A["replies"])
                 fails.append(dict(log=lid, a=b, b=a, dim=dim, kind="replies",
@@ -190,6 +231,8 @@ SIG_SYNCER_REPLAY = ("syncer-replay: entries from the cluster syncer are conflic
                      "live but applied unconditionally when replayed")
 SIG_HLL_BYTES = ("stored bytes of a HyperLogLog value: the library's gob serialisation iterates a Go map (tmpSet), "
                  "equal sketches are stored as different byte strings from run to run")
+SIG_COUNTER = ("compaction: the table key counter counts a key again that is re-created after the compaction filter "
+               "dropped its expired predecessor")
 SIG_HLL = ("restore: HyperLogLog write-back cache (pfadd reaches the engine only when the cache is flushed: "
            "checkpoint, restart, eviction)")
 
@@ -202,6 +245,8 @@ def signature_of(dim, kind, shrunk_names, policy, observed=None):
         return SIG_HLL
     if dim == "syncer-replay":
         return SIG_SYNCER_REPLAY
+    if dim == "compaction" and kind == "counter":
+        return SIG_COUNTER
     if dim == "batching" and observed:
         # a batchable command that replies an error when applied alone, and another request whose
         # reply changes when they are delivered together
@@ -261,7 +306,7 @@ class Runner:
         logs, order = parse_cases(os.path.join(d, "cases.tsv"))
         obs = parse_obs(os.path.join(d, "obs.out"))
         vids = list(logs[order[0]]["vars"].keys())
-        what = "r" if kind == "replies" else "rd"
+        what = "r" if kind == "replies" else ("rdc" if dim == "compaction" else ("u" if dim == "localexpiry" else "rd"))
         fails, _ = judge(logs, order, obs, pairs=[(vids[1], vids[0], dim, what)])
         return fails, {v: obs.get(v) for v in vids}
 
@@ -419,6 +464,10 @@ def run(ctx):
         jobs.append(("partial", "-partial", "first"))
         # collections > RangeDeleteNum cleared by range deletion and re-created, on mem, pebble and rocksdb
         jobs.append(("big", "-big", "first"))
+        # values of every type expire and are then touched; rocksdb with / without a forced full compaction, pebble, mem
+        jobs.append(("compact", "-compact", "first"))
+        # local-deletion policy: one key name, several types, a TTL on one of them, node-local sweep on one replica
+        jobs.append(("sweep", "-sweep", "first"))
 
     if not ctx.replay and not quick:
         # thorough: identical runs are identical, before any pair that differs in a dimension is judged
@@ -459,6 +508,7 @@ def run(ctx):
             for lid in order:
                 vids = list(logs[lid]["vars"].keys())
                 pl = [(v, vids[0], dim_of(logs[lid]["vars"][vids[0]], logs[lid]["vars"][v]), "rd") for v in vids[1:]]
+                pl = [(a_, b_, d_, "rdc" if d_ == "compaction" else ("u" if d_ == "localexpiry" else w_)) for a_, b_, d_, w_ in pl]
                 f1, s1 = judge(logs, [lid], obs, pairs=pl)
                 fails += f1
                 for k in ("logs", "skipped_panic", "comparisons", "runerr", "raw_only_diffs"):
@@ -579,6 +629,8 @@ def dim_of(va, vb):
     if a[6] != b[6]:
         return "localexpiry"
     sa, sb = (a[8] if len(a) > 8 else "-"), (b[8] if len(b) > 8 else "-")
+    if ("c" in sa) != ("c" in sb) and a[2] == b[2]:
+        return "compaction"
     if "s" in sa and "s" in sb:
         return "syncer-replay" if a[3] != b[3] else "syncer-batching"
     if a[3] != b[3] and a[7] == b[7]:
